@@ -329,8 +329,8 @@ namespace awkward {
           kernel::lib::cpu,   // DERIVE
           rawsubidentities->data(),
           rawidentities->data(),
-          rawidentities->length(),
-          content_.get()->length());
+          rawidentities->length()*rawidentities->width(),
+          content_.get()->length()*rawidentities->width());
         util::handle_error(err, classname(), identities_.get());
         content_.get()->setidentities(subidentities);
       }
@@ -347,8 +347,8 @@ namespace awkward {
           kernel::lib::cpu,   // DERIVE
           rawsubidentities->data(),
           rawidentities->data(),
-          rawidentities->length(),
-          content_.get()->length());
+          rawidentities->length()*rawidentities->width(),
+          content_.get()->length()*rawidentities->width());
         util::handle_error(err, classname(), identities_.get());
         content_.get()->setidentities(subidentities);
       }
